@@ -269,7 +269,8 @@ def run_cell(ctx, p):
     exp = tuple(p['exp'])
     del _tap[:]
     try:
-        cast = {'int': int, 'float': float, 'float64': np.float64, 'int64': np.int64}
+        cast = {'int': int, 'float': float, 'float64': np.float64, 'int64': np.int64, 'list': lambda v: [float(x) for x in v],
+                'tuple': lambda v: tuple(float(x) for x in v)}
         a = build(L, p['a']) if L in CLASSES else cast[L](p['a'])
         b = build(R, p['b']) if R in CLASSES else cast[R](p['b'])
     except Exception as e:
@@ -388,4 +389,15 @@ def run(ctx):
                         else:
                             p = dict(L=sname, R=c, op=op, a=s, b=obj, exp=list(e))
                         drive(RUNNERS, ctx, 'cell', p)
+    # a plain list / tuple on the LEFT of a library object is documented for no class: must raise
+    for c in CLASSES:
+        for op in ARITH:
+            for kind in ('list', 'tuple'):
+                for n in (2, 3, 4, 6):
+                    for ml in ((False, True) if c in MULTI_OK else (False,)):
+                        i += 1
+                        if not ctx.mine(i):
+                            continue
+                        v = [float(x) for x in gen.vec(rng, n, 1e-1, 1e1)]
+                        drive(RUNNERS, ctx, 'cell', dict(L=kind, R=c, op=op, a=v, b=operand(rng, c, ml), exp=['raise']))
     ctx.extra['table_cells_enumerated'] = i
